@@ -270,6 +270,50 @@ Theorem C09_api_att_long_is_longlong :
 Proof. exact @api_att_long_is_longlong. Qed.
 Print Assumptions C09_api_att_long_is_longlong.
 
+(* nonblocking reads completed by ONE wait/wait_all (req_commit, gating translated from ncmpio_wait.c): for EVERY batch the *)
+(* status word of request i is the conversion status of request i; the return value is the first error in queue order *)
+Theorem C09_req_status_local :
+  forall errs : list Z,
+         Convert.commit_get Gen_ncx.req_gate Convert.NC_NOERR errs = (first_err errs, errs).
+Proof. exact @req_status_local. Qed.
+Print Assumptions C09_req_status_local.
+
+Theorem C09_req_status_independent :
+  forall (errs1 errs2 : list Z) (i : nat),
+         nth_error errs1 i = nth_error errs2 i ->
+         nth_error (snd (Convert.commit_get Gen_ncx.req_gate Convert.NC_NOERR errs1)) i =
+         nth_error (snd (Convert.commit_get Gen_ncx.req_gate Convert.NC_NOERR errs2)) i.
+Proof. exact @req_status_independent. Qed.
+Print Assumptions C09_req_status_independent.
+
+(* gating the status word on the function-wide first error instead of the request's own word loses later statuses (2-request witness) *)
+Theorem C09_req_status_global_gate_refuted :
+  ~
+         (forall (errs1 errs2 : list Z) (i : nat),
+          nth_error errs1 i = nth_error errs2 i ->
+          nth_error (snd (Convert.commit_get Gen_ncx.GateGlobal Convert.NC_NOERR errs1)) i =
+          nth_error (snd (Convert.commit_get Gen_ncx.GateGlobal Convert.NC_NOERR errs2)) i).
+Proof. exact @req_status_global_gate_refuted. Qed.
+Print Assumptions C09_req_status_global_gate_refuted.
+
+(* a batch of iget/iput/bput requests: post status, status word and stored elements of request i are a function of request i alone *)
+Theorem C09_nb_model_local :
+  forall (fmt : Z) (reqs : list Convert.nbreq),
+         Convert.nb_model fmt reqs =
+         (first_err (Convert.nb_geterrs fmt reqs), map (nb_req1 fmt) reqs).
+Proof. exact @nb_model_local. Qed.
+Print Assumptions C09_nb_model_local.
+
+Theorem C09_ex_global_gate_drops_status :
+  Convert.commit_get Gen_ncx.GateGlobal Convert.NC_NOERR
+           (Convert.NC_ERANGE :: Convert.NC_ERANGE :: nil) =
+         (Convert.NC_ERANGE, Convert.NC_ERANGE :: Convert.NC_NOERR :: nil) /\
+         Convert.commit_get Gen_ncx.req_gate Convert.NC_NOERR
+           (Convert.NC_ERANGE :: Convert.NC_NOERR :: Convert.NC_ERANGE :: nil) =
+         (Convert.NC_ERANGE, Convert.NC_ERANGE :: Convert.NC_NOERR :: Convert.NC_ERANGE :: nil).
+Proof. exact @ex_global_gate_drops_status. Qed.
+Print Assumptions C09_ex_global_gate_drops_status.
+
 (* the rounding function of model and specification returns every value of the target format unchanged *)
 Theorem C09_rne_exact :
   forall (t : Gen_ncx.cty) (n : bool) (m e : Z),
